@@ -322,7 +322,9 @@ def handle_reset(config: kconfiglib.Kconfig, error: List[str], to_reset: List[st
     if remainder:
         error.append(f"Some items to reset were not symbols nor menus: {','.join(remainder)}")
 
-    missing_syms = [sym_name for sym_name in sym_names_to_reset if sym_name not in config.syms]
+    # Names that are only referenced (e.g. a literal such as "7" in an expression) are in config.syms without being
+    # defined: they have no menu node and cannot be reset
+    missing_syms = [name for name in sym_names_to_reset if name not in config.syms or not config.syms[name].nodes]
     missing_menus = [menu_name for menu_name in menu_ids_to_reset if menu_name not in config.menu_ids]
 
     if missing_syms:
